@@ -28,7 +28,7 @@ def shards(tier):
 
 
 def required_classes(tier):
-    out = ["soak:distinct-inverses", "derived-configurations", "hash-colliding-operands", "interleaved-configurations", "W4:GF(p)", "W4:GF(p^2)", "W4:GF(2^12)", "int-operand", "div-by-zero", "pow:>=750bit", "laws"]
+    out = ["typed-variants", "soak:distinct-inverses", "derived-configurations", "hash-colliding-operands", "interleaved-configurations", "W4:GF(p)", "W4:GF(p^2)", "W4:GF(2^12)", "int-operand", "div-by-zero", "pow:>=750bit", "laws"]
     for impl in ("ref", "opt"):
         for d in (1, 2, 12):
             out.append("real:%s:deg%d" % (impl, d))
@@ -213,6 +213,7 @@ def run(rec):
     interleaved_configurations(rec, rng, quick)
     hash_colliding_operands(rec, rng, quick)
     derived_configurations(rec, rng, quick)
+    typed_variants(rec, rng, quick)
     if rec.shard == 5 or not quick:
         from .common import soak_size, soak_then_reprobe
         import py_ecc.fields as pf
@@ -268,6 +269,33 @@ def run(rec):
                     rec.count_distinct(n)
                     rec.exhaustive_space("opt FQ12 over GF(3), modulus %r: inverse of every non-zero element (inv monitor)" % (mc,), n)
                 exercise(rec, (impl, "GF(%d^12)#%d" % (p, mi), 12), cls, F, rng, quick, heavy=True)
+
+
+def typed_variants(rec, rng, quick):
+    """Same values, other legal types: coefficient sequences given as tuples, int operands / exponents that are instances of an
+    int subclass, FQ built from such an int."""
+    import py_ecc.fields as pf
+    from .common import IntSub
+    for name in ("bn128_FQ", "optimized_bls12_381_FQ", "bls12_381_FQ2", "optimized_bn128_FQ2", "optimized_bls12_381_FQ12", "bn128_FQ12"):
+        cls = getattr(pf, name)
+        p = cls.field_modulus
+        deg = getattr(cls, "degree", 0) or 1
+        v = [rng.randrange(p) for _ in range(deg)]
+        rec.case("typed-variants", None, nontrivial=False)
+        if deg == 1:
+            x = cls(IntSub(v[0]))
+            call(lambda: x + IntSub(5))
+            call(lambda: IntSub(7) - x)
+            call(lambda: x / IntSub(3))
+            call(lambda: IntSub(3) / x)
+        else:
+            x = cls(tuple(v))
+            call(lambda: cls([IntSub(c) for c in v]) * x)
+            call(lambda: x / IntSub(3))
+            call(x.inv)
+        call(lambda: x * IntSub(p + 2))
+        call(lambda: x ** IntSub(rng.getrandbits(90)))
+        call(lambda: x ** IntSub(0))
 
 
 def derived_configurations(rec, rng, quick):
